@@ -4,17 +4,19 @@
      weed/server/filer_server_handlers_write_upload.go     uploadReaderToChunks, dataToChunk
    Executable definitions only; proofs are in proof/FilerWriteProofs.v.
 
-   Faithful to the code AS IT IS.  In particular:
-   * a body read error only ends the chunk loop (it is never recorded);
-   * the first read is inlined when it is smaller than saveToFilerLimit or the
-     path is under /etc, and the loop then STOPS, whatever is left in the body;
-   * on append every new chunk is shifted by the FileSize ATTRIBUTE of the
-     existing entry, not by the extent of its chunks;
-   * the chunk size is 1024*1024*maxMB computed in int32.
+   Faithful to the code as it is (after the four C25 repairs):
+   * a body read error ends the chunk loop AND is recorded: the request fails
+     ("read input: ..." -> 499) and nothing is committed;
+   * the first read is inlined only when it is SHORTER than the chunk size (so it
+     is the whole body) and smaller than saveToFilerLimit or under /etc;
+   * on append every new chunk is shifted by entry.Size() = the current end of
+     the file (max of FileSize attribute, chunk extent, inline length);
+   * autoChunk rejects maxMB <= 0 and maxMB > 2047 (400), so the int32 chunk size
+     1024*1024*maxMB is positive and does not wrap.
 
    Bytes are [N]; offsets and sizes are [N] (int64/uint64, never negative and
    never near the limits here); the chunk size and the inline limit are [Z]
-   (int32 / int64, may be <= 0). *)
+   (int32 / int64). *)
 From Coq Require Import List NArith ZArith Bool.
 Import ListNotations.
 
@@ -49,11 +51,14 @@ Definition wrap32 (z : Z) : Z := ((z + 2147483648) mod 4294967296 - 2147483648)%
 (* parsedMaxMB, _ := strconv.ParseInt(query.Get("maxMB"), 10, 32)   (0 when absent)
    maxMB := int32(parsedMaxMB)
    if maxMB <= 0 && fs.option.MaxMB > 0 { maxMB = int32(fs.option.MaxMB) }
-   chunkSize := 1024 * 1024 * maxMB                                  (int32) *)
-Definition chunk_size_of (maxmb_q maxmb_opt : Z) : Z :=
+   if maxMB <= 0 || maxMB > 2047 { 400; return }
+   chunkSize := 1024 * 1024 * maxMB                                  (int32)
+   None = the request is rejected with 400 *)
+Definition auto_chunk_size (maxmb_q maxmb_opt : Z) : option Z :=
   let m := wrap32 maxmb_q in
   let m := if ((m <=? 0) && (0 <? maxmb_opt))%Z then wrap32 maxmb_opt else m in
-  wrap32 (1024 * 1024 * m).
+  if ((m <=? 0) || (2047 <? m))%Z then None
+  else Some (wrap32 (1024 * 1024 * m)).
 
 (* ---------- uploadReaderToChunks ---------- *)
 
@@ -71,10 +76,11 @@ Definition read_chunk (cs : Z) (bytes : list N) (e : ending) : list N * list N *
                end in
     (firstn n bytes, skipn n bytes, err).
 
-(* fileChunks, chunkOffset, uploadErr, smallContent, and the number of body
-   bytes that went through the md5 TeeReader *)
+(* fileChunks, chunkOffset, an upload failed, the body reader failed,
+   smallContent, and the number of body bytes that went through the md5 TeeReader *)
 Record upload_result := UR {
-  ur_chunks : list chunk; ur_off : N; ur_err : bool; ur_small : list N; ur_hashed : N }.
+  ur_chunks : list chunk; ur_off : N; ur_err : bool; ur_rerr : bool;
+  ur_small : list N; ur_hashed : N }.
 
 (* The for-loop.  [upfail]: one flag per upload started, true = dataToChunk
    fails for that chunk after all its retries (oracle for master/volume).
@@ -83,16 +89,17 @@ Fixpoint upload_loop (fuel : nat) (cs limit : Z) (inline_ok etc : bool)
     (bytes : list N) (e : ending) (upfail : list bool)
     (off : N) (acc : list chunk) (uerr : bool) (hashed : N) : upload_result :=
   match fuel with
-  | O => UR acc off uerr [] hashed
+  | O => UR acc off uerr false [] hashed
   | S fuel' =>
     let '(d, rest, rerr) := read_chunk cs bytes e in
     let dsz := N.of_nat (length d) in
     let hashed' := (hashed + dsz)%N in
-    (* if err != nil || dataSize == 0 { break } *)
-    if rerr || (dsz =? 0)%N then UR acc off uerr [] hashed'
-    (* if chunkOffset == 0 && !isAppend(r) { if dataSize < SaveToFilerLimit || under /etc { inline; break } } *)
-    else if (off =? 0)%N && inline_ok && ((Z.of_N dsz <? limit)%Z || etc)
-    then UR acc (off + dsz)%N uerr d hashed'
+    (* if err != nil || dataSize == 0 { readErr = err; break } *)
+    if rerr || (dsz =? 0)%N then UR acc off uerr rerr [] hashed'
+    (* if chunkOffset == 0 && !isAppend(r) && dataSize < int64(chunkSize) {
+         if dataSize < SaveToFilerLimit || under /etc { inline; break } } *)
+    else if (off =? 0)%N && inline_ok && (Z.of_N dsz <? cs)%Z && ((Z.of_N dsz <? limit)%Z || etc)
+    then UR acc (off + dsz)%N uerr false d hashed'
     else
       (* go dataToChunk(...): on failure uploadErr is set and no chunk is appended *)
       let failed := hd false upfail in
@@ -100,27 +107,52 @@ Fixpoint upload_loop (fuel : nat) (cs limit : Z) (inline_ok etc : bool)
       let uerr' := uerr || failed in
       let off' := (off + dsz)%N in
       (* if dataSize < int64(chunkSize) { break } *)
-      if (Z.of_N dsz <? cs)%Z then UR acc' off' uerr' [] hashed'
+      if (Z.of_N dsz <? cs)%Z then UR acc' off' uerr' false [] hashed'
       else upload_loop fuel' cs limit inline_ok etc rest e (tl upfail) off' acc' uerr' hashed'
   end.
 
 (* every iteration that continues consumed a full chunk, so this is enough *)
 Definition fuel_for (cs : Z) (len : N) : nat := S (Z.to_nat (Z.of_N len / cs)).
 
-(* if uploadErr != nil { return nil, md5Hash, 0, uploadErr, nil }; the chunks
-   were appended in offset order, so the final sort is the identity *)
+Definition ur_failed (r : upload_result) : bool := ur_err r || ur_rerr r.
+
+(* if uploadErr == nil && readErr != nil { uploadErr = "read input: ..." }
+   if uploadErr != nil { return nil, md5Hash, 0, uploadErr, nil }
+   the chunks were appended in offset order, so the final sort is the identity *)
 Definition finish (r : upload_result) : upload_result :=
-  if ur_err r then UR [] 0 true [] (ur_hashed r) else r.
+  if ur_failed r then UR [] 0 (ur_err r) (ur_rerr r) [] (ur_hashed r) else r.
 
 Definition upload_reader_to_chunks (cs limit : Z) (inline_ok etc : bool)
     (bytes : list N) (e : ending) (upfail : list bool) : upload_result :=
   finish (upload_loop (fuel_for cs (N.of_nat (length bytes))) cs limit inline_ok etc
             bytes e upfail 0 [] false 0).
 
+(* ---------- reference reader (the property's oracle) ----------
+   What a GET of the entry returns: the inline content if any, else the chunks
+   painted in list order (later chunks have later mtimes) over a zero buffer of
+   max(FileSize attribute, extent of the chunks) bytes  (filer.FileSize). *)
+Definition extent (cks : list chunk) : N :=
+  fold_left (fun m c => N.max m (ck_off c + ck_size c)) cks 0%N.
+
+Definition paint (buf : list N) (c : chunk) : list N :=
+  let o := N.to_nat (ck_off c) in
+  firstn o buf ++ ck_data c ++ skipn (o + length (ck_data c)) buf.
+
+Definition file_end (e : entry) : N := N.max (e_size e) (extent (e_chunks e)).
+
+Definition read_entry (e : entry) : list N :=
+  if is_nil (e_content e)
+  then fold_left paint (e_chunks e) (repeat 0%N (N.to_nat (file_end e)))
+  else e_content e.
+
 (* ---------- saveMetaData ---------- *)
 
 Definition shift_chunk (by_ : N) (c : chunk) : chunk :=
   Ck (ck_off c + by_) (ck_size c) (ck_data c).
+
+(* filer.Entry.Size(): max(max(TotalSize(chunks), FileSize), len(Content)) *)
+Definition entry_size (e : entry) : N :=
+  N.max (N.max (extent (e_chunks e)) (e_size e)) (N.of_nat (length (e_content e))).
 
 (* [md5] is the hash oracle; [bytes] the request body (the hashed bytes are a
    prefix of it).  Returns (no error, the entry stored under the path afterwards). *)
@@ -128,11 +160,12 @@ Definition save_metadata (md5 : list N -> N) (is_append : bool) (pre : option en
     (bytes : list N) (ur : upload_result) : bool * option entry :=
   match (if is_append then pre else None) with
   | Some e =>
-      (* chunk.Offset += int64(entry.FileSize); entry.FileSize += uint64(chunkOffset); Md5 = nil *)
+      (* appendAt := entry.Size(); chunk.Offset += appendAt;
+         entry.FileSize = appendAt + chunkOffset; Md5 = nil *)
       if negb (is_nil (e_content e)) then (false, pre)   (* "append to small file is not supported yet" *)
-      else (true, Some {| e_size := e_size e + ur_off ur;
+      else (true, Some {| e_size := entry_size e + ur_off ur;
                           e_content := e_content e;
-                          e_chunks := e_chunks e ++ map (shift_chunk (e_size e)) (ur_chunks ur);
+                          e_chunks := e_chunks e ++ map (shift_chunk (entry_size e)) (ur_chunks ur);
                           e_md5 := None |})
   | None =>
       (true, Some {| e_size := ur_off ur;
@@ -159,57 +192,18 @@ Definition handle_write (md5 : list N -> N) (rq : request) (pre : option entry) 
   | PostRaw => (Failed, pre)            (* r.MultipartReader(): not multipart -> 500 *)
   | _ =>
     let ur := upload_of rq in
-    if ur_err ur then (Failed, pre)
+    if ur_failed ur then (Failed, pre)
     else
       let '(ok, post) := save_metadata md5 (rq_append rq) pre (rq_body rq) ur in
       ((if ok then Created else Failed), post)
   end.
 
-(* ---------- reference reader (the property's oracle) ----------
-   What a GET of the entry returns: the inline content if any, else the chunks
-   painted in list order (later chunks have later mtimes) over a zero buffer of
-   max(FileSize attribute, extent of the chunks) bytes  (filer.FileSize). *)
-Definition extent (cks : list chunk) : N :=
-  fold_left (fun m c => N.max m (ck_off c + ck_size c)) cks 0%N.
-
-Definition paint (buf : list N) (c : chunk) : list N :=
-  let o := N.to_nat (ck_off c) in
-  firstn o buf ++ ck_data c ++ skipn (o + length (ck_data c)) buf.
-
-Definition file_end (e : entry) : N := N.max (e_size e) (extent (e_chunks e)).
-
-Definition read_entry (e : entry) : list N :=
-  if is_nil (e_content e)
-  then fold_left paint (e_chunks e) (repeat 0%N (N.to_nat (file_end e)))
-  else e_content e.
-
-(* ---------- decidable triggers of the known findings ---------- *)
-
-(* finding 0: the body reader fails *)
-Definition read_err_trigger (rq : request) : bool := is_err (rq_end rq).
-
-(* finding 1: append to a chunked entry whose FileSize attribute is below the extent of its chunks *)
-Definition append_trigger (rq : request) (pre : option entry) : bool :=
-  rq_append rq &&
-  match pre with
-  | Some e0 => is_nil (e_content e0) && (e_size e0 <? extent (e_chunks e0))%N
-  | None => false
-  end.
-
-(* finding 2: the first chunk is inlined although more body follows *)
-Definition inline_trunc_trigger (rq : request) : bool :=
-  negb (rq_append rq) && ((rq_cs rq <? rq_limit rq)%Z || rq_etc rq) &&
-  (rq_cs rq <? Z.of_nat (length (rq_body rq)))%Z.
-
-(* finding 3: the int32 chunk size is not positive *)
-Definition chunk_size_trigger (rq : request) : bool :=
-  (rq_cs rq <=? 0)%Z && negb (is_nil (rq_body rq)).
-
 (* ---------- length-level view of the upload loop (used for 1 MiB chunks) ---------- *)
 
 Record plan := PL {
   pl_chunks : list (N * N);   (* (offset, size) *)
-  pl_off : N; pl_err : bool; pl_small : N (* length of the inline content, 0 = none *); pl_hashed : N }.
+  pl_off : N; pl_err : bool; pl_rerr : bool;
+  pl_small : N (* length of the inline content, 0 = none *); pl_hashed : N }.
 
 Definition read_len (cs : Z) (len : N) (e : ending) : N * N * bool :=
   if (cs <=? 0)%Z then (0, len, false)%N
@@ -226,29 +220,29 @@ Fixpoint plan_loop (fuel : nat) (cs limit : Z) (inline_ok etc : bool)
     (len : N) (e : ending) (upfail : list bool)
     (off : N) (acc : list (N * N)) (uerr : bool) (hashed : N) : plan :=
   match fuel with
-  | O => PL acc off uerr 0 hashed
+  | O => PL acc off uerr false 0 hashed
   | S fuel' =>
     let '(dsz, rest, rerr) := read_len cs len e in
     let hashed' := (hashed + dsz)%N in
-    if rerr || (dsz =? 0)%N then PL acc off uerr 0 hashed'
-    else if (off =? 0)%N && inline_ok && ((Z.of_N dsz <? limit)%Z || etc)
-    then PL acc (off + dsz)%N uerr dsz hashed'
+    if rerr || (dsz =? 0)%N then PL acc off uerr rerr 0 hashed'
+    else if (off =? 0)%N && inline_ok && (Z.of_N dsz <? cs)%Z && ((Z.of_N dsz <? limit)%Z || etc)
+    then PL acc (off + dsz)%N uerr false dsz hashed'
     else
       let failed := hd false upfail in
       let acc' := if failed then acc else acc ++ [(off, dsz)] in
       let uerr' := uerr || failed in
       let off' := (off + dsz)%N in
-      if (Z.of_N dsz <? cs)%Z then PL acc' off' uerr' 0 hashed'
+      if (Z.of_N dsz <? cs)%Z then PL acc' off' uerr' false 0 hashed'
       else plan_loop fuel' cs limit inline_ok etc rest e (tl upfail) off' acc' uerr' hashed'
   end.
 
 Definition plan_finish (p : plan) : plan :=
-  if pl_err p then PL [] 0 true 0 (pl_hashed p) else p.
+  if pl_err p || pl_rerr p then PL [] 0 (pl_err p) (pl_rerr p) 0 (pl_hashed p) else p.
 
 Definition plan_upload (cs limit : Z) (inline_ok etc : bool) (len : N) (e : ending)
     (upfail : list bool) : plan :=
   plan_finish (plan_loop (fuel_for cs len) cs limit inline_ok etc len e upfail 0 [] false 0).
 
 Definition shape (r : upload_result) : plan :=
-  PL (map (fun c => (ck_off c, ck_size c)) (ur_chunks r)) (ur_off r) (ur_err r)
+  PL (map (fun c => (ck_off c, ck_size c)) (ur_chunks r)) (ur_off r) (ur_err r) (ur_rerr r)
      (N.of_nat (length (ur_small r))) (ur_hashed r).
